@@ -59,3 +59,44 @@ func RenderBM(bm *bondmachine.Bondmachine, conf *bondmachine.Config) (files map[
 	}
 	return files, nil
 }
+
+// InScratch runs f with the process CWD set to a private scratch directory (serialised) and returns
+// the files f left there (some generators write auxiliary Verilog files into the CWD).
+func InScratch(f func() error) (files map[string]string, err error) {
+	cwdMu.Lock()
+	defer cwdMu.Unlock()
+	old, err := os.Getwd()
+	if err != nil {
+		return nil, err
+	}
+	dir, err := os.MkdirTemp("", "verif-hdl-")
+	if err != nil {
+		return nil, err
+	}
+	defer os.RemoveAll(dir)
+	if err := os.Chdir(dir); err != nil {
+		return nil, err
+	}
+	defer os.Chdir(old)
+	defer func() {
+		if r := recover(); r != nil {
+			err = fmt.Errorf("generator panics: %v", r)
+		}
+	}()
+	if err := f(); err != nil {
+		return nil, err
+	}
+	files = map[string]string{}
+	ents, _ := os.ReadDir(dir)
+	for _, e := range ents {
+		if e.IsDir() {
+			continue
+		}
+		b, err := os.ReadFile(filepath.Join(dir, e.Name()))
+		if err != nil {
+			return nil, err
+		}
+		files[e.Name()] = string(b)
+	}
+	return files, nil
+}
